@@ -83,17 +83,17 @@ func (a vAddr) Network() string { return "vudp" }
 func (a vAddr) String() string  { return string(a) }
 
 func NewVNet() *VNet {
-	n := &VNet{MaxVirtual: 30 * time.Minute}
+	n := &VNet{MaxVirtual: 3 * time.Minute}
 	n.cond = sync.NewCond(&n.mu)
 	n.eps[0] = &VEnd{n: n, id: 0, addr: vAddr("10.0.0.1:4000"), deadline: -1}
 	n.eps[1] = &VEnd{n: n, id: 1, addr: vAddr("10.0.0.2:5000"), deadline: -1}
 	return n
 }
 
-func (n *VNet) End(i int) *VEnd          { return n.eps[i] }
-func (n *VNet) Addr(i int) net.Addr      { return n.eps[i].addr }
-func (n *VNet) SetAddr(i int, a string)  { n.eps[i].addr = vAddr(a) }
-func (n *VNet) Now() time.Duration       { n.mu.Lock(); defer n.mu.Unlock(); return n.now }
+func (n *VNet) End(i int) *VEnd         { return n.eps[i] }
+func (n *VNet) Addr(i int) net.Addr     { return n.eps[i].addr }
+func (n *VNet) SetAddr(i int, a string) { n.eps[i].addr = vAddr(a) }
+func (n *VNet) Now() time.Duration      { n.mu.Lock(); defer n.mu.Unlock(); return n.now }
 
 type timeoutErr struct{}
 
